@@ -79,6 +79,8 @@ def switch_on_call(body, call_bb):
                     l = op_local(rv['op'])
                     if l in want:
                         want.add(s['lhs']['l'])
+                if rv['k'] == 'discr' and not rv['pl']['p'] and rv['pl']['l'] in want:
+                    want.add(s['lhs']['l'])
                 if rv['k'] == 'un' and rv['op'] == 'Not':
                     l = op_local(rv['a'])
                     if l in want:
